@@ -80,7 +80,7 @@ def run(ctx):
         model = rng.choice(["lepton3", "boson", "lepton3.5"])
         conns, mev, fid, nclear = [], [], 1, 0
         for c in range(rng.choice([1, 2])):
-            conn, ev, fid = fam_e2e.build_conn(rng, settings, w, h, fps, model, fid, rng.randint(25, 80), with_clear=True, clear_runs=True, rm_temps=(2 if k % 2 == 0 else 0),
+            conn, ev, fid = fam_e2e.build_conn(rng, settings, w, h, fps, model, fid, rng.randint(25, 80), with_clear=True, clear_runs=True, burst_after_clear=True, rm_temps=(2 if k % 2 == 0 else 0),
                                                with_bad=(k % 2 == 1))
             conn["dbus"] = [dict(at_byte=10 ** 9, member="CameraInfo")]
             conns.append(conn)
